@@ -13,6 +13,7 @@ import (
 	"sort"
 	"strings"
 	"sync"
+	"syscall"
 	"time"
 
 	"github.com/biogo/biogo/morass"
@@ -27,6 +28,9 @@ import (
 //   write/read  - through the verif run-file wrapper (the error travels through gob and biogo's own handling)
 //   creation    - the sorter's directory is removed just before the writer creates its file (real failure)
 //   sync / seek - the run file is closed behind the sorter's back just before the call (real failure)
+//   syncx/seekx - transient failure of exactly one fsync/lseek: the descriptor is swapped (dup2) for a pipe end for the
+//                 duration of that one call (fsync on a pipe: EINVAL, lseek: ESPIPE) and swapped back at the sorter's
+//                 next step, so nothing else fails as a consequence and the only trace of the fault is the returned error
 //   fsync/lseek - additionally injected by strace in a hook-free child process (thorough, and a few in quick)
 
 type c13Fault struct {
@@ -52,6 +56,44 @@ type c13Inj struct {
 	fired   bool
 	firedAt string
 	ctl     *c12Ctl
+	restore map[int64]func() // transient descriptor swaps to undo, by goroutine (0: caller side)
+}
+
+// swapFd makes the next fsync/lseek on f fail without touching the file: f's descriptor number is pointed at the write
+// end of a pipe; the returned function points it back at the file.
+func swapFd(f *os.File) func() {
+	fd := int(f.Fd())
+	saved, err := syscall.Dup(fd)
+	if err != nil {
+		return nil
+	}
+	var p [2]int
+	if err := syscall.Pipe(p[:]); err != nil {
+		syscall.Close(saved)
+		return nil
+	}
+	if err := syscall.Dup2(p[1], fd); err != nil {
+		syscall.Close(saved)
+		syscall.Close(p[0])
+		syscall.Close(p[1])
+		return nil
+	}
+	return func() {
+		syscall.Dup2(saved, fd)
+		syscall.Close(saved)
+		syscall.Close(p[0])
+		syscall.Close(p[1])
+	}
+}
+
+// undo reverts the descriptor swap made for goroutine g (and, for g == -1, every outstanding one). Called with in.mu held.
+func (in *c13Inj) undo(g int64) {
+	for k, f := range in.restore {
+		if g == -1 || k == g {
+			f()
+			delete(in.restore, k)
+		}
+	}
 }
 
 var errInjected = errors.New("verif: injected I/O failure")
@@ -118,8 +160,25 @@ func (in *c13Inj) step(name string) {
 			in.fired, in.firedAt = true, fmt.Sprintf("sync #%d (file closed behind the sorter)", in.fault.N)
 			in.byG[g].Close()
 		}
+		if in.fault.Kind == "syncx" && in.counts["sync"] == in.fault.N && in.byG[g] != nil {
+			if undo := swapFd(in.byG[g]); undo != nil {
+				in.fired, in.firedAt = true, fmt.Sprintf("sync #%d (this one fsync fails, the file stays intact)", in.fault.N)
+				in.restore[g] = undo
+			}
+		}
+	case "write.return":
+		in.undo(g)
+	case "finalise.done":
+		in.undo(-1)
 	case "finalise.seek":
+		in.undo(-1)
 		in.counts["seek"]++
+		if in.fault.Kind == "seekx" && in.counts["seek"] == in.fault.N && in.fault.N <= len(in.files) {
+			if undo := swapFd(in.files[in.fault.N-1]); undo != nil {
+				in.fired, in.firedAt = true, fmt.Sprintf("seek on run file #%d (this one lseek fails, the file stays intact)", in.fault.N)
+				in.restore[0] = undo
+			}
+		}
 		if in.fault.Kind == "seek" && in.counts["seek"] == 1 && in.fault.N <= len(in.files) {
 			in.fired, in.firedAt = true, fmt.Sprintf("seek on run file #%d (file closed behind the sorter)", in.fault.N)
 			in.files[in.fault.N-1].Close()
@@ -153,7 +212,7 @@ func c13Exec(r *obs.Run, p c13Plan, vals []int) (out c13Outcome) {
 	}
 	m.AutoClear = p.AutoClear
 	ents, _ := os.ReadDir(scratch)
-	inj := &c13Inj{fault: p.Fault, counts: map[string]int{}}
+	inj := &c13Inj{fault: p.Fault, counts: map[string]int{}, restore: map[int64]func(){}}
 	if len(ents) == 1 {
 		inj.dir = filepath.Join(scratch, ents[0].Name())
 	}
@@ -170,6 +229,7 @@ func c13Exec(r *obs.Run, p c13Plan, vals []int) (out c13Outcome) {
 			out.Panicked = fmt.Sprint(e)
 		}
 		inj.mu.Lock()
+		inj.undo(-1)
 		out.Fired, out.FiredAt, out.Counts = inj.fired, inj.firedAt, inj.counts
 		inj.mu.Unlock()
 	}()
@@ -186,6 +246,9 @@ func c13Exec(r *obs.Run, p c13Plan, vals []int) (out c13Outcome) {
 		}
 	}
 	ferr := m.Finalise()
+	inj.mu.Lock()
+	inj.undo(-1)
+	inj.mu.Unlock()
 	note("Finalise", ferr)
 	if inj.ctl != nil {
 		inj.ctl.mu.Lock()
@@ -258,8 +321,8 @@ func c13Items(r *obs.Run) []c13Item {
 		for _, conc := range []bool{false, true} {
 			// upper bounds on the ordinals; the census in each child trims them (unreached ordinals are counted as such)
 			nfiles := (w.n() + w.Chunk - 1) / w.Chunk
-			bounds := map[string]int{"create": nfiles, "sync": nfiles, "seek": nfiles, "write": 0, "read": 0}
-			for _, kind := range []string{"create", "sync", "seek"} {
+			bounds := map[string]int{"create": nfiles, "sync": nfiles, "seek": nfiles, "syncx": nfiles, "seekx": nfiles, "write": 0, "read": 0}
+			for _, kind := range []string{"create", "sync", "seek", "syncx", "seekx"} {
 				for n := 1; n <= bounds[kind]; n++ {
 					items = append(items, c13Item{plan: c13Plan{W: w, Concurrent: conc, Fault: c13Fault{kind, n}}})
 					items = append(items, c13Item{plan: c13Plan{W: w, Concurrent: conc, AutoClear: true, Fault: c13Fault{kind, n}}})
@@ -300,8 +363,8 @@ func init() {
 	register(&obs.Monitor{
 		ID:    "C13",
 		Level: "fault_enumeration",
-		Rule: "census of every temp-file creation, run-file write, sync, seek and read of multi-chunk workloads (2..5 chunks, both writer modes), then one run per fault point with exactly that operation failing (writes/reads through the verif run-file wrapper, creation by removing the sorter's directory, sync/seek by closing the run file behind the sorter; " +
-			"fsync/lseek also injected by strace into a hook-free child); in concurrent mode faults are combined with holds ordering the failing writer's return before/after the caller's next hand-off and Finalise. Oracle: no error reported by any Push/Finalise/Pull and pulled != sorted input => violation. " +
+		Rule: "census of every temp-file creation, run-file write, sync, seek and read of multi-chunk workloads (2..5 chunks, both writer modes), then one run per fault point with exactly that operation failing (writes/reads through the verif run-file wrapper, creation by removing the sorter's directory, sync/seek by closing the run file behind the sorter, and again as a transient failure of that one fsync/lseek with the file left intact (descriptor swapped for a pipe end during the call); " +
+			"fsync/lseek also injected by strace into a hook-free child); in concurrent mode faults are combined with holds ordering the failing writer's return before/after the caller's next hand-off and Finalise. Oracle: no error reported by any Push/Finalise/Pull and (pulled != sorted input, or the fault is known to have taken effect) => violation. " +
 			"Residue: random C11 histories with AutoClean/AutoClear, checking the temporary directory after drain and after CleanUp. Non-trivial = the chosen operation was actually reached; distinct = (workload, mode, fault, hold) or history word",
 		Batches: func(t string) int {
 			if t == "thorough" {
@@ -315,7 +378,7 @@ func init() {
 		Case:        c13Case,
 		MinDistinct: func(t string) int { return 500 },
 		Floors: func(string) map[string]int64 {
-			return map[string]int64{"fault_runs": 800, "faults_reached": 700, "faults_create": 80, "faults_write": 200, "faults_sync": 80, "faults_seek": 80, "faults_read": 160, "errors_reported": 700, "faults_with_autoclear": 300, "faults_read_in_long_runs": 30,
+			return map[string]int64{"fault_runs": 800, "faults_reached": 700, "faults_create": 80, "faults_write": 200, "faults_sync": 80, "faults_seek": 80, "faults_syncx": 80, "faults_seekx": 80, "faults_read": 160, "errors_reported": 700, "faults_with_autoclear": 300, "faults_read_in_long_runs": 30,
 				"strace_injections_hit": 3, "residue_histories": 500, "residue_autoclean_drains": 60, "residue_autoclear_drains": 100}
 		},
 		Assumptions: []string{"exactly one operation is made to fail per run; later failures caused by it (a closed or removed file) are consequences, not additional injections",
@@ -393,6 +456,13 @@ func c13One(r *obs.Run, p c13Plan, vals []int) {
 	}
 	if !out.E && !out.Correct && out.Panicked == "" {
 		r.Violate("failure-hidden", fmt.Sprintf("%s (workload %+v, concurrent=%v): no Push/Finalise/Pull reported an error, yet %d of %d values were delivered: %v", out.FiredAt, p.W, p.Concurrent, len(out.Got), len(vals), out.Got), w)
+	}
+	// the first clause read literally: the failed operation must surface as an error from some call, also when every
+	// value still comes back. Only for faults known to have taken effect: which file a seek ordinal refers to is exact
+	// only when writers register their files serially (sequential mode).
+	exact := !p.Concurrent || (p.Fault.Kind != "seek" && p.Fault.Kind != "seekx")
+	if out.Fired && exact && !out.E && out.Correct && out.Panicked == "" {
+		r.Violate("failure-unreported", fmt.Sprintf("%s (workload %+v, concurrent=%v): the operation failed, every Push, Finalise and Pull returned success (all %d values delivered)", out.FiredAt, p.W, p.Concurrent, len(vals)), w)
 	}
 	r.Note(sig, out.Fired)
 	if r.WantSample() && out.Fired && len(vals) < 9 {
